@@ -61,7 +61,7 @@ Hh == Orients[o][3]
 -----------------------------------------------------------------------------
 (* C15: the copies of a site.                                               *)
 Wrap(v) == ((v + D \div 2) % D) - D \div 2
-Op(k) == RefOps(g)[k]
+Op(k) == Ops(g)[k]
 \* fractional position of copy k, numerators over D, in [-D/2, D/2)
 Frac(k) == << Wrap(Op(k)[1] * sx + Op(k)[2] * sy + Op(k)[5] * (D \div 2)),
               Wrap(Op(k)[3] * sx + Op(k)[4] * sy + Op(k)[6] * (D \div 2)) >>
@@ -249,16 +249,17 @@ RedescriptionOK(cw, rw) == \A r \in Redescriptions :
 (* and change the side ratio; rectangular cells keep bx = 0.                *)
 CONSTANTS GroupSet, ShapeSet, AxSet, BSet, SiteSet, OrientSet
 
-FamilyOK == IF RefFamily(g) = "Monoclinic"
-            THEN bx >= 0 /\ 3 * by * by >= bx * bx           \* angle in [30, 90] degrees
-            ELSE bx = 0
+FamilyOK == CASE FamilyOf(g) = "Monoclinic" -> bx >= 0 /\ 3 * by * by >= bx * bx   \* angle in [30, 90] degrees
+              [] FamilyOf(g) = "Tetragonal" -> bx = 0 /\ by = ax
+              [] OTHER -> bx = 0
 RatioOK == /\ 100 * (bx * bx + by * by) >= ax * ax            \* ratio >= 0.1
            /\ bx * bx + by * by <= ax * ax                     \* ratio <= 1
 StateOK == FamilyOK /\ RatioOK /\ by > 0 /\ ax > 0
 
 \* one initial state per (group, shape): any admissible cell of the sets; the moves reach the rest
-CellOK(a, b) == /\ (RefFamily(g) = "Monoclinic" => (b[1] >= 0 /\ 3 * b[2] * b[2] >= b[1] * b[1]))
-                /\ (RefFamily(g) # "Monoclinic" => b[1] = 0)
+CellOK(a, b) == /\ (FamilyOf(g) = "Monoclinic" => (b[1] >= 0 /\ 3 * b[2] * b[2] >= b[1] * b[1]))
+                /\ (FamilyOf(g) # "Monoclinic" => b[1] = 0)
+                /\ (FamilyOf(g) = "Tetragonal" => b[2] = a)
                 /\ 100 * (b[1] * b[1] + b[2] * b[2]) >= a * a /\ b[1] * b[1] + b[2] * b[2] <= a * a
                 /\ b[2] > 0 /\ a > 0
 Init == /\ g \in GroupSet /\ sh \in ShapeSet
@@ -268,10 +269,12 @@ Init == /\ g \in GroupSet /\ sh \in ShapeSet
         /\ sx = MinOf(SiteSet) /\ sy = MinOf(SiteSet) /\ o = MinOf(OrientSet)
 
 MoveA == \E a2 \in AxSet : ax' = a2 /\ UNCHANGED <<g, sh, bx, by, sx, sy, o>>
+\* a square cell has one length
+MoveT == FamilyOf(g) = "Tetragonal" /\ \E a2 \in AxSet : ax' = a2 /\ by' = a2 /\ UNCHANGED <<g, sh, bx, sx, sy, o>>
 MoveB == \E b2 \in BSet : bx' = b2[1] /\ by' = b2[2] /\ UNCHANGED <<g, sh, ax, sx, sy, o>>
 MoveX == \E x2 \in SiteSet : sx' = x2 /\ UNCHANGED <<g, sh, ax, bx, by, sy, o>>
 MoveY == \E y2 \in SiteSet : sy' = y2 /\ UNCHANGED <<g, sh, ax, bx, by, sx, o>>
 MoveO == \E o2 \in OrientSet : o' = o2 /\ UNCHANGED <<g, sh, ax, bx, by, sx, sy>>
-Next == (MoveA \/ MoveB \/ MoveX \/ MoveY \/ MoveO) /\ StateOK'
+Next == (MoveA \/ MoveB \/ MoveT \/ MoveX \/ MoveY \/ MoveO) /\ StateOK'
 Spec == Init /\ [][Next]_vars
 =============================================================================
